@@ -43,6 +43,11 @@ type c07op struct {
 	Via     string         `json:"via"`     // constructor of "new": "" (NewBioSequence) | write | writestring | writebyte | setseq
 	Feat    string         `json:"feat"`    // features given to "new" / "setfeat"
 	HasFeat bool           `json:"hasfeat"` // "new": call SetFeatures
+	// round 3
+	Id     string `json:"id"`     // "new": identifier (default "s"); "setid"
+	Def    string `json:"def"`    // "new" / "setdef": definition
+	Src    string `json:"src"`    // "new" / "setsrc": source
+	MmType string `json:"mmtype"` // "new" / "setmm": "" map[string]int | "iface" map[string]interface{} holding float64 (a JSON header) | "ifaceint" map[string]interface{} holding int | "float" map[string]float64
 }
 
 type c07case struct {
@@ -59,6 +64,18 @@ type c07val struct {
 	Mm   [][2]any `json:"mm"` // sorted (key, position); nil when the attribute is absent
 	Feat string   `json:"feat"`
 	Mate int      `json:"mate"` // PairedWith(): -1 none, else the lowest register naming that object, -2 when no register names it (recycled mate)
+	// round 3: the other accessors of the object
+	Id     string `json:"id"`
+	Def    string `json:"def"`    // Definition()
+	HasDef bool   `json:"hasdef"` // HasDefinition()
+	Src    string `json:"src"`    // Source()
+	HasSrc bool   `json:"hassrc"` // HasSource()
+	Len    int    `json:"len"`    // Len()
+	HasSeq bool   `json:"hasseq"` // HasSequence()
+	// final snapshot only
+	Md5  string   `json:"md5,omitempty"`  // MD5String()
+	Comp [][2]int `json:"comp,omitempty"` // Composition(), sorted by key
+	QStr *string  `json:"qstr,omitempty"` // QualitiesString()
 }
 
 type c07step struct {
@@ -71,6 +88,7 @@ type c07step struct {
 	Pool   [][3]int `json:"pool,omitempty"`   // byte-pool events of this step, in order: [0 = Get | 1 = Recycle, buffer identity (-1: nil header), capacity]
 	APool  int      `json:"apool,omitempty"`  // number of annotation-pool events of this step
 	Shared [][2]int `json:"shared,omitempty"` // pairs of registers naming DIFFERENT live objects whose byte buffers overlap
+	Flag   *bool    `json:"flag,omitempty"`   // answer of a boolean query (sameas)
 }
 
 type c07obs struct {
@@ -94,11 +112,29 @@ func c07qual(q []int) []byte {
 	return b
 }
 
-func c07snapOne(s *obiseq.BioSequence, regs []*obiseq.BioSequence) c07val {
+func c07snapOne(s *obiseq.BioSequence, regs []*obiseq.BioSequence, full bool) c07val {
 	if s == nil {
 		return c07val{Mate: -1}
 	}
-	v := c07val{Live: true, Seq: s.String(), HasQ: s.HasQualities(), Feat: s.Features(), Mate: -1}
+	v := c07val{Live: true, Seq: s.String(), HasQ: s.HasQualities(), Feat: s.Features(), Mate: -1,
+		Id: s.Id(), Src: s.Source(), HasSrc: s.HasSource(), Len: s.Len(), HasSeq: s.HasSequence()}
+	if s.HasAnnotation() { // Definition() on an object without annotations would be answered without creating any
+		v.Def, v.HasDef = s.Definition(), s.HasDefinition()
+	}
+	if full {
+		v.Md5 = s.MD5String()
+		comp := s.Composition()
+		keys := make([]int, 0, len(comp))
+		for k := range comp {
+			keys = append(keys, int(k))
+		}
+		sort.Ints(keys)
+		for _, k := range keys {
+			v.Comp = append(v.Comp, [2]int{k, comp[byte(k)]})
+		}
+		q := s.QualitiesString()
+		v.QStr = &q
+	}
 	if v.HasQ {
 		q := s.Qualities()
 		v.Qual = make([]int, len(q))
@@ -127,6 +163,20 @@ func c07snapOne(s *obiseq.BioSequence, regs []*obiseq.BioSequence) c07val {
 				sort.Strings(keys)
 				for _, k := range keys {
 					v.Mm = append(v.Mm, [2]any{k, m[k]})
+				}
+			case map[string]interface{}, map[string]float64: // as stored by a header parser: the positions as the code reads them
+				im, ok := s.GetIntMap("pairing_mismatches")
+				if !ok {
+					v.Mm = append(v.Mm, [2]any{"!not an int map", 0})
+					break
+				}
+				keys := make([]string, 0, len(im))
+				for k := range im {
+					keys = append(keys, k)
+				}
+				sort.Strings(keys)
+				for _, k := range keys {
+					v.Mm = append(v.Mm, [2]any{k, im[k]})
 				}
 			default:
 				v.Mm = append(v.Mm, [2]any{fmt.Sprintf("!type %T", raw), 0})
@@ -172,10 +222,10 @@ func c07shared(regs []*obiseq.BioSequence) [][2]int {
 	return res
 }
 
-func c07snap(regs []*obiseq.BioSequence) []c07val {
+func c07snap(regs []*obiseq.BioSequence, full bool) []c07val {
 	r := make([]c07val, len(regs))
 	for i, s := range regs {
-		r[i] = c07snapOne(s, regs)
+		r[i] = c07snapOne(s, regs, full)
 	}
 	return r
 }
@@ -277,13 +327,65 @@ func c07traceRead(ids *c07ids) (ev [][3]int, annot int) {
 	return ev, annot
 }
 
+// c07scribble overwrites a slice the harness handed to the code: an object that kept the caller's slice instead of
+// copying it (SetSequence, SetQualities, the constructors, the Write family copy their argument) would change with it
+func c07scribble(b []byte) {
+	for i := range b {
+		b[i] = 0xEE
+	}
+}
+
+func c07mm(op c07op) any {
+	switch op.MmType {
+	case "iface":
+		m := make(map[string]interface{}, len(op.Mm))
+		for k, v := range op.Mm {
+			m[k] = float64(v)
+		}
+		return m
+	case "ifaceint":
+		m := make(map[string]interface{}, len(op.Mm))
+		for k, v := range op.Mm {
+			m[k] = v
+		}
+		return m
+	case "float":
+		m := make(map[string]float64, len(op.Mm))
+		for k, v := range op.Mm {
+			m[k] = float64(v)
+		}
+		return m
+	}
+	m := make(map[string]int, len(op.Mm))
+	for k, v := range op.Mm {
+		m[k] = v
+	}
+	return m
+}
+
 func c07new(op c07op) *obiseq.BioSequence {
 	var res *obiseq.BioSequence
+	id := op.Id
+	if id == "" {
+		id = "s"
+	}
+	withq := false
+	seqb, qualb := []byte(op.Seq), c07qual(op.Qual)
+	defer c07scribble(seqb)
+	defer c07scribble(qualb)
 	switch op.Via {
+	case "withqual": // the constructor that takes the qualities
+		res = obiseq.NewBioSequenceWithQualities(id, seqb, op.Def, qualb)
+		withq = true
+	case "grow": // an empty object that reserves room before it is written to (sequence == nil: Grow takes a pooled slice)
+		res = obiseq.NewEmptyBioSequence(0)
+		res.SetId(id)
+		res.Grow(op.N)
+		res.Write(seqb)
 	case "write":
 		res = obiseq.NewEmptyBioSequence(op.N)
 		res.SetId("s")
-		res.Write([]byte(op.Seq))
+		res.Write(seqb)
 	case "writestring":
 		res = obiseq.NewEmptyBioSequence(op.N)
 		res.SetId("s")
@@ -291,28 +393,33 @@ func c07new(op c07op) *obiseq.BioSequence {
 	case "writebyte":
 		res = obiseq.NewEmptyBioSequence(op.N)
 		res.SetId("s")
-		for _, b := range []byte(op.Seq) {
+		for _, b := range append([]byte(nil), seqb...) {
 			res.WriteByte(b)
 		}
 	case "setseq":
 		res = obiseq.NewEmptyBioSequence(op.N)
 		res.SetId("s")
-		res.SetSequence([]byte(op.Seq))
+		res.SetSequence(seqb)
 	default:
-		res = obiseq.NewBioSequence("s", []byte(op.Seq), "")
+		res = obiseq.NewBioSequence(id, seqb, op.Def)
 	}
-	if op.Qual != nil {
-		res.SetQualities(c07qual(op.Qual))
+	if op.Via != "" && op.Via != "withqual" {
+		res.SetId(id)
+		if op.Def != "" {
+			res.SetDefinition(op.Def)
+		}
+	}
+	if op.Src != "" {
+		res.SetSource(op.Src)
+	}
+	if op.Qual != nil && !withq {
+		res.SetQualities(qualb)
 	}
 	if op.HasFeat {
 		res.SetFeatures([]byte(op.Feat))
 	}
 	if op.HasMm {
-		m := make(map[string]int, len(op.Mm))
-		for k, v := range op.Mm {
-			m[k] = v
-		}
-		res.SetAttribute("pairing_mismatches", m)
+		res.SetAttribute("pairing_mismatches", c07mm(op))
 	}
 	return res
 }
@@ -342,7 +449,7 @@ func c07hist(c c07case) c07obs {
 			var res *obiseq.BioSequence
 			produced := false
 			s := get(op.R)
-			if s == nil && op.Op != "new" && op.Op != "churn" && op.Op != "gc" {
+			if s == nil && op.Op != "new" && op.Op != "churn" && op.Op != "gc" && op.Op != "nilrc" {
 				st.Status = "err"
 				st.Msg = "dead register"
 				return
@@ -355,7 +462,17 @@ func c07hist(c c07case) c07obs {
 				res = s.Copy()
 				produced = true
 			case "rc":
-				res = s.ReverseComplement(op.Inplace)
+				if op.Via == "worker" { // the SeqWorker obicomplement runs
+					sl, err := obiseq.ReverseComplementWorker(op.Inplace)(s)
+					if err != nil || len(sl) != 1 {
+						st.Status = "err"
+						st.Msg = fmt.Sprint("worker: ", err, len(sl))
+						return
+					}
+					res = sl[0]
+				} else {
+					res = s.ReverseComplement(op.Inplace)
+				}
 				produced = true
 			case "sub":
 				r, err := s.Subsequence(op.From, op.To, op.Circ)
@@ -376,7 +493,9 @@ func c07hist(c c07case) c07obs {
 				res = s.Join(s2, op.Inplace)
 				produced = true
 			case "setseq":
-				s.SetSequence([]byte(op.Seq))
+				b := []byte(op.Seq)
+				s.SetSequence(b)
+				c07scribble(b)
 			case "write": // append raw bytes (not lower-cased by the code)
 				switch op.Via {
 				case "writestring":
@@ -389,7 +508,48 @@ func c07hist(c c07case) c07obs {
 					s.Write([]byte(op.Seq))
 				}
 			case "setqual":
-				s.SetQualities(c07qual(op.Qual))
+				q := c07qual(op.Qual)
+				s.SetQualities(q)
+				c07scribble(q)
+			case "clear": // the sequence becomes empty, the buffer stays
+				s.Clear()
+			case "clearqual":
+				s.ClearQualities()
+			case "writeq": // append scores (the counterpart of Write for the qualities)
+				if op.Via == "byte" {
+					for _, b := range c07qual(op.Qual) {
+						s.WriteByteQualities(b)
+					}
+				} else {
+					q := c07qual(op.Qual)
+					s.WriteQualities(q)
+					c07scribble(q)
+				}
+			case "grow": // reserve room: no value changes (an object whose sequence is nil would take a pooled slice: constructor "grow")
+				if sq, _, _ := s.VerifRawBuffers(); cap(sq) > 0 {
+					s.Grow(op.N)
+				}
+			case "setid":
+				s.SetId(op.Id)
+			case "setdef": // "" removes the attribute
+				s.SetDefinition(op.Def)
+			case "setsrc":
+				s.SetSource(op.Src)
+			case "sameas":
+				s2 := get(op.R2)
+				if s2 == nil {
+					st.Status = "err"
+					st.Msg = "dead register"
+					return
+				}
+				f := s.SameAs(s2)
+				st.Flag = &f
+			case "nilrc": // a nil object: ReverseComplement answers nil, Len 0
+				var z *obiseq.BioSequence
+				if z.ReverseComplement(op.Inplace) != nil || z.Len() != 0 {
+					st.Status = "err"
+					st.Msg = "nil receiver: not nil"
+				}
 			case "setfeat": // the object adopts the slice it is given; N = spare capacity of that slice
 				f := make([]byte, len(op.Feat), len(op.Feat)+op.N)
 				copy(f, op.Feat)
@@ -412,15 +572,16 @@ func c07hist(c c07case) c07obs {
 					f[op.I] = byte(op.B)
 				}
 			case "setmm":
-				m := make(map[string]int, len(op.Mm))
-				for k, v := range op.Mm {
-					m[k] = v
-				}
-				s.SetAttribute("pairing_mismatches", m)
+				s.SetAttribute("pairing_mismatches", c07mm(op))
 			case "pokemm": // update the stored map in place
 				if s.HasAnnotation() {
-					if m, ok := s.Annotations()["pairing_mismatches"].(map[string]int); ok {
+					switch m := s.Annotations()["pairing_mismatches"].(type) {
+					case map[string]int:
 						m[op.Key] = op.B
+					case map[string]interface{}:
+						m[op.Key] = float64(op.B)
+					case map[string]float64:
+						m[op.Key] = float64(op.B)
 					}
 				}
 			case "pair":
@@ -463,12 +624,12 @@ func c07hist(c c07case) c07obs {
 		if c.Each {
 			st.Bufs = c07bufs(regs, ids)
 			st.Shared = c07shared(regs)
-			st.Snap = c07snap(regs)
+			st.Snap = c07snap(regs, false)
 			c07traceRead(ids)
 		}
 		o.Steps = append(o.Steps, st)
 	}
-	o.Final = c07snap(regs)
+	o.Final = c07snap(regs, true)
 	return o
 }
 
